@@ -21,7 +21,7 @@ RULE = ('kind split: a random file is cut along a random dimension into 1..4 con
         'pieces and a variable whose stack axis is not the first; the multi-file front ends pncmfopen and open_mfdataset (with and without stackdim) open the same '
         'pieces from paths whose argument order is not the sorted order, also with repeated paths, and must give the model\'s stack of that sequence; '
         'later files may carry extra global attributes (the result has the first file\'s); IOAPI files are cut along TSTEP or LAY, the pieces '
-        'saved and stacked again (method and pncmfopen): data, TFLAG, SDATE/STIME/TSTEP, VGLVLS/NLAYS must equal the original')
+        'saved and stacked again (method and pncmfopen): data, TFLAG, SDATE/STIME/TSTEP, VGLVLS/NLAYS must equal the original; IOAPI pieces also stacked out of order or with one left out (every variable with the stack dimension, TFLAG included, equals the concatenation of the arguments); fill value 0')
 ASSUMPTIONS = ['numpy.ma.concatenate behaves as list concatenation along the axis']
 MIN_NONTRIVIAL = {'quick': 60, 'thorough': 600}
 
